@@ -233,6 +233,13 @@ class Driver:
             finally:
                 self.arm[0] = 0
             errs += self.compare(exp, step, ref, it, meta)
+        et, idt = getattr(it, '_entry_time', None), getattr(it, '_idle_time', None)
+        if isinstance(et, dict) and isinstance(idt, dict) and not errs:
+            for st_ in ref.conf:
+                if et.get(st_) != ref.entry.get(st_) or idt.get(st_) != ref.idle.get(st_):
+                    errs.append('state %s: entry/idle stamps are %s/%s, the time model has %s/%s'
+                                % (st_, et.get(st_), idt.get(st_), ref.entry.get(st_), ref.idle.get(st_)))
+                    break
         if sync.time != it.time:
             errs.append('SynchronizedClock shows %s, Interpreter.time is %s' % (sync.time, it.time))
         if it.time != ref.now:
